@@ -50,6 +50,8 @@ FLOATS: list = []
 
 
 def out_point(pt):
+    if isinstance(pt, np.ndarray) and pt.ndim == 0:
+        pt = pt.item()
     try:
         it = list(pt)
     except TypeError:
